@@ -22,6 +22,8 @@ Section Reach.
   Variable opens : range_table.
   Variable empties : list range.
   Variable vals : list (range * sexp).
+  Variable funcs : fsigs.
+  Variable parens : range_table.
   Variable p : pos.
 
   Notation PP := (p_byte p).
@@ -49,7 +51,7 @@ Section Reach.
   | CCond r c a b : wfc c -> wfc a -> wfc b -> wfc_node r (NCond c a b)
   | CFor r coll k v c : wfc coll -> (forall x, k = Some x -> wfc x) -> wfc v -> (forall x, c = Some x -> wfc x) -> wfc_node r (NFor coll k v c)
   | CIndex r k : wfc k -> wfc_node r (NIndex k)
-  | CCall r name nr args : wfc_node r (NCall name nr args)
+  | CCall r name nr args : rs r <= rs nr -> re nr <= re r -> Forall wfc args -> wfc_node r (NCall name nr args)
   | COther r : wfc_node r NOther
   with wfc_item : sitem -> Prop :=
   | CItem kr k v : re kr <= re (se_rng v) -> wfc v -> (forall pe, k = SKParens pe -> wfc pe) -> wfc_item (SItem kr k v).
@@ -336,12 +338,60 @@ Section Reach.
       destruct (dot_behind _ _ _); [injection H as <-; exact Hx|]. apply IH; assumption.
     Qed.
 
-    Lemma non_complex_ok t skip e : cexpr_wf e -> vres_ok (non_complex_cands file empties vals p rec t skip e).
+    Lemma arg_at_wf args : forall i last le li a j, Forall wfc args -> arg_at p i args last le li = AFound a j -> wfc a.
+    Proof.
+      induction args as [|x r IH]; intros i last le li a j HF H; cbn [arg_at] in H; [discriminate|].
+      inversion HF as [|? ? Hx Hr]; subst.
+      destruct (Z.ltb _ _); [discriminate|].
+      destruct (at_or_end _ _); [injection H as <- _; exact Hx|]. eapply IH; eassumption.
+    Qed.
+
+    Lemma arg_at_last_wf args : forall i last le li l2 le2 li2, Forall wfc args -> (forall b, last = Some b -> wfc b) ->
+      arg_at p i args last le li = ADone l2 le2 li2 -> forall a, l2 = Some a -> wfc a.
+    Proof.
+      induction args as [|x r IH]; intros i last le li l2 le2 li2 HF Hl H; cbn [arg_at] in H.
+      - injection H as <- _ _. exact Hl.
+      - inversion HF as [|? ? Hx Hr]; subst.
+        destruct (Z.ltb _ _); [injection H as <- _ _; exact Hl|].
+        destruct (at_or_end _ _); [discriminate|].
+        eapply IH; [exact Hr| |exact H]. intros b Eb. injection Eb as <-. exact Hx.
+    Qed.
+
+    Lemma call_ok x : wfc x -> vres_ok (call_cands file empties funcs parens p rec x).
+    Proof.
+      intros Hw. open_c x Hw r vt n Hn. unfold call_cands. cbn [se_node se_rng]. destruct n; try apply ok_nil.
+      inversion Hn as [| | | | | | | | | | | |? ? ? ? Hs He Hargs|]; subst.
+      destruct (contains_pos name_rng p) eqn:Ec.
+      - apply ok_ret. constructor; [|constructor]. unfold item_ok; cbn.
+        unfold contains_pos, contains_offset in Ec. apply andb_prop in Ec as (E1 & E2). apply Z.leb_le in E1. apply Z.ltb_lt in E2.
+        unfold rs, re in *. lia.
+      - destruct (alookup name funcs) as [[params varp]|]; [|apply ok_nil].
+        destruct (lookup_range parens r) as [pr|]; [|apply ok_nil].
+        destruct (negb _); [apply ok_nil|].
+        assert (Hmain : vres_ok match arg_at p 0 args None (rs pr) 0 with
+                                | AFound a i => match param_type params varp i with Some t => rec (CAny t false) (norm empties a) | None => vnil end
+                                | ADone last last_end last_idx =>
+                                    match param_type params varp (if String.eqb (string_of_bytes (trim_right_set is_blank_tab_nl (recover_left file (P p) (fun off b => (b_eq b "," || b_eq b "(") && Z.ltb last_end off)))) "," then S last_idx else last_idx) with
+                                    | Some t => rec (CAny t false) (if String.eqb (string_of_bytes (trim_right_set is_blank_tab_nl (recover_left file (P p) (fun off b => (b_eq b "," || b_eq b "(") && Z.ltb last_end off)))) "," then CEmpty
+                                                                    else match recover_left file (P p) (fun off b => (b_eq b "," || b_eq b "(") && Z.ltb last_end off), last with [], Some a => norm empties a | _, _ => CEmpty end)
+                                    | None => vnil
+                                    end
+                                end).
+        { destruct (arg_at p 0 args None (rs pr) 0) as [a i|last le li] eqn:Ea.
+          - destruct (param_type params varp i); [|apply ok_nil]. apply Hrec. apply norm_wf. eapply arg_at_wf; eassumption.
+          - destruct (param_type _ _ _); [|apply ok_nil]. apply Hrec.
+            destruct (String.eqb _ _); [exact I|]. destruct (recover_left _ _ _); [|exact I].
+            destruct last as [a|] eqn:El; [|exact I]. apply norm_wf.
+            eapply arg_at_last_wf; [exact Hargs| |exact Ea|reflexivity]. intros b Eb. discriminate. }
+        destruct params; [destruct varp; [exact Hmain|apply ok_nil]|exact Hmain].
+    Qed.
+
+    Lemma non_complex_ok t skip e : cexpr_wf e -> vres_ok (non_complex_cands file empties vals funcs parens p rec t skip e).
     Proof.
       intros Hw. destruct e as [|x]; cbn [non_complex_cands]; [apply leaf_ok; exact I|].
       pose proof (leaf_ok t skip (CExpr x) Hw) as Hleaf.
       cbn in Hw. destruct x as [r vt n]. inversion Hw as [? ? ? Hn]; subst. cbn [se_node se_rng] in *.
-      destruct n; try exact Hleaf; try apply ok_skip; inversion Hn; subst.
+      destruct n; try exact Hleaf; try apply ok_skip; try (apply call_ok; exact Hw); inversion Hn; subst.
       - destruct lit; [apply ok_nil|].
         destruct (parts_at file p parts) as [y|] eqn:Ep; [|apply ok_nil].
         apply ok_app; [apply Hrec; apply norm_wf; eapply parts_at_wf; eassumption|exact Hleaf].
@@ -365,7 +415,7 @@ Section Reach.
             apply ok_app; [apply Hrec; apply norm_wf; auto|exact Hleaf].
     Qed.
 
-    Lemma any_ok t skip e : cexpr_wf e -> vres_ok (any_cands file empties vals p rec t skip e).
+    Lemma any_ok t skip e : cexpr_wf e -> vres_ok (any_cands file empties vals funcs parens p rec t skip e).
     Proof.
       intros Hw. unfold any_cands. destruct skip; [apply non_complex_ok; exact Hw|].
       destruct e as [|x]; [apply non_complex_ok; exact Hw|].
@@ -373,7 +423,7 @@ Section Reach.
       destruct t; try exact Hnc; destruct (se_node x); try exact Hnc; try (apply Hrec; exact Hw).
     Qed.
 
-    Lemma step_ok c e : cexpr_wf e -> vres_ok (step_cands prefill file opens empties vals p rec c e).
+    Lemma step_ok c e : cexpr_wf e -> vres_ok (step_cands prefill file opens empties vals funcs parens p rec c e).
     Proof.
       intros Hw. destruct c; cbn [step_cands].
       - apply any_ok; exact Hw.
@@ -392,9 +442,376 @@ Section Reach.
   End Step.
 
   (* every candidate and every place reserved for reference / function candidates reaches the cursor *)
-  Theorem value_cands_reach_cursor fuel : forall c e, cexpr_wf e -> vres_ok (value_cands prefill file opens empties vals p fuel c e).
+  Theorem value_cands_reach_cursor fuel : forall c e, cexpr_wf e -> vres_ok (value_cands prefill file opens empties vals funcs parens p fuel c e).
   Proof.
     induction fuel as [|n IH]; intros c e Hw; cbn [value_cands]; [apply ok_none|].
     apply step_ok; [exact IH|exact Hw].
   Qed.
 End Reach.
+
+(* ------------------------------------------------------------------------------------------------
+   (2) Keyword candidates are admitted by the constraint: a candidate of kind "keyword" carries the keyword of
+       a Keyword constraint occurring in the attribute's constraint (as list / set / map element, tuple position,
+       object attribute or one-of alternative), and the typed text is a prefix of it.  Type-driven expansions
+       (literal types, any-expressions, interpolated keys) never yield one. *)
+Inductive has_kw : constraint -> string -> Prop :=
+| HKw kw nm : has_kw (CKeyword kw nm) kw
+| HKList e mn mx kw : has_kw e kw -> has_kw (CList (Some e) mn mx) kw
+| HKSet e mn mx kw : has_kw e kw -> has_kw (CSet (Some e) mn mx) kw
+| HKMap e nm ip mn mx kw : has_kw e kw -> has_kw (CMap (Some e) nm ip mn mx) kw
+| HKTuple cs c kw : In c cs -> has_kw c kw -> has_kw (CTuple cs) kw
+| HKOneOf cs c kw : In c cs -> has_kw c kw -> has_kw (COneOf cs) kw
+| HKObject ats isnil nm ip n a kw : In (n, a) ats -> has_kw (as_cons a) kw -> has_kw (CObject ats isnil nm ip) kw.
+
+Section Keywords.
+  Variable prefill : bool.
+  Variable file : bytes.
+  Variable opens : range_table.
+  Variable empties : list range.
+  Variable vals : list (range * sexp).
+  Variable funcs : fsigs.
+  Variable parens : range_table.
+  Variable p : pos.
+
+  Definition kw_item (c : constraint) (i : vitem) : Prop :=
+    vi_kind i = kKeyword -> exists kw, has_kw c kw /\ exists n s t sb eb, i = VC kKeyword (Some kw) n s t sb eb.
+  Definition vres_kw (c : constraint) (r : vres) : Prop := forall l, r = Some (Some l) -> Forall (kw_item c) l.
+
+  Lemma kw_nil c : vres_kw c vnil.
+  Proof. intros l E. injection E as <-. constructor. Qed.
+  Lemma kw_skip c : vres_kw c vskip.
+  Proof. intros l E. discriminate. Qed.
+  Lemma kw_none c : vres_kw c None.
+  Proof. intros l E. discriminate. Qed.
+  Lemma kw_ret c l : Forall (kw_item c) l -> vres_kw c (vret l).
+  Proof. intros H l' E. injection E as <-. exact H. Qed.
+  Lemma kw_app c a b : vres_kw c a -> vres_kw c b -> vres_kw c (vapp a b).
+  Proof.
+    intros Ha Hb l E. destruct a as [[x|]|]; destruct b as [[y|]|]; cbn [vapp] in E; try discriminate.
+    injection E as <-. apply Forall_app. split; [apply Ha|apply Hb]; reflexivity.
+  Qed.
+  (* a constraint without keywords, used in place of one that has some (or none) *)
+  Lemma kw_weaken c c' r : (forall kw, has_kw c' kw -> has_kw c kw) -> vres_kw c' r -> vres_kw c r.
+  Proof.
+    intros Hsub H l E. specialize (H l E). eapply Forall_impl; [|exact H].
+    intros i Hi Hk. destruct (Hi Hk) as (kw & Hh & rest). exists kw. split; [apply Hsub; exact Hh|exact rest].
+  Qed.
+
+  Definition other_kind (i : vitem) : Prop := vi_kind i <> kKeyword.
+  Lemma kw_other c l : Forall other_kind l -> Forall (kw_item c) l.
+  Proof. intros H. eapply Forall_impl; [|exact H]. intros i Hi Hk. contradiction. Qed.
+
+  Lemma no_kw_any t s kw : ~ has_kw (CAny t s) kw.
+  Proof. intros H; inversion H. Qed.
+  Lemma no_kw_lit t s kw : ~ has_kw (CLitType t s) kw.
+  Proof. intros H; inversion H. Qed.
+
+  Lemma no_kw_expand t c kw : expand_lit_type t = Some c -> ~ has_kw c kw.
+  Proof.
+    intros E H. destruct t; cbn in E; try discriminate; injection E as <-.
+    - inversion H; subst. eapply no_kw_lit; eassumption.
+    - inversion H; subst. eapply no_kw_lit; eassumption.
+    - inversion H; subst. eapply no_kw_lit; eassumption.
+    - inversion H as [| | | |? ? ? Hin Hk| |]; subst. apply in_map_iff in Hin as (t0 & <- & _). eapply no_kw_lit; eassumption.
+    - inversion H as [| | | | | |? ? ? ? ? ? ? Hin Hk]; subst. apply in_map_iff in Hin as ([n0 [t0 o0]] & Ea & _).
+      injection Ea as <- <-. cbn in Hk. eapply no_kw_lit; eassumption.
+  Qed.
+
+  Section StepK.
+    Variable rec : constraint -> cexpr -> vres.
+    Hypothesis Hrec : forall c e, vres_kw c (rec c e).
+
+    Lemma rec_any c t s e : vres_kw c (rec (CAny t s) e).
+    Proof. eapply kw_weaken; [|apply Hrec]. intros kw H. exfalso. eapply no_kw_any; eassumption. Qed.
+
+    Lemma bool_items_other af at' pre sb eb : Forall other_kind (bool_items af at' pre sb eb).
+    Proof.
+      unfold bool_items. apply Forall_app. split; destruct (_ && _); repeat constructor; unfold other_kind; cbn; discriminate.
+    Qed.
+
+    Lemma complete_bool_kw c af at' x : vres_kw c (complete_bool vals p af at' x).
+    Proof.
+      unfold complete_bool. destruct (se_node x); try apply kw_nil.
+      - destruct (_ || _); [apply kw_nil|]. apply kw_ret, kw_other, bool_items_other.
+      - destruct t; try apply kw_nil. destruct (bool_value vals x); [|apply kw_skip].
+        destruct (_ || _); [apply kw_nil|]. apply kw_ret, kw_other, bool_items_other.
+    Qed.
+
+    Lemma one_other c i : other_kind i -> vres_kw c (vret [i]).
+    Proof. intros H. apply kw_ret, kw_other. constructor; [exact H|constructor]. Qed.
+
+    Lemma at_cursor_other k l n s t : k <> kKeyword -> other_kind (at_cursor p k l n s t).
+    Proof. intros H. unfold other_kind, at_cursor. cbn. exact H. Qed.
+
+    Lemma ecd_item_other k l c : k <> kKeyword -> other_kind (ecd_item prefill p k l c).
+    Proof. intros H. unfold ecd_item. destruct (ecd prefill 40 c 1 0); apply at_cursor_other; exact H. Qed.
+
+    Lemma kind_for_type_not_kw t : kind_for_type t <> kKeyword.
+    Proof. destruct t; cbn; unfold kKeyword; discriminate. Qed.
+
+    Lemma literal_type_kw c t skip e : vres_kw c (literal_type_cands vals p rec t skip e).
+    Proof.
+      destruct e as [|x]; cbn [literal_type_cands].
+      - destruct (is_primitive t).
+        + destruct t; try apply kw_nil. apply kw_ret, kw_other, bool_items_other.
+        + destruct (is_dyn t); [apply kw_nil|]. destruct skip; [apply kw_nil|].
+          apply one_other, at_cursor_other, kind_for_type_not_kw.
+      - destruct t; try apply complete_bool_kw; destruct skip; try apply kw_nil; destruct (se_node x); try apply kw_nil;
+          (destruct (expand_lit_type _) as [c'|] eqn:Ex; [|apply kw_nil];
+           eapply kw_weaken; [|apply Hrec]; intros kw H; exfalso; eapply no_kw_expand; eassumption).
+    Qed.
+
+    Lemma literal_value_kw c v t e : vres_kw c (literal_value_cands vals p v t e).
+    Proof.
+      destruct e as [|x]; cbn [literal_value_cands].
+      - apply one_other, at_cursor_other, kind_for_type_not_kw.
+      - destruct t; try (apply one_other; unfold other_kind; cbn; unfold kKeyword; discriminate).
+        destruct (bool_of_val v); [apply complete_bool_kw|apply kw_skip].
+    Qed.
+
+    Lemma keyword_kw kw nm e : vres_kw (CKeyword kw nm) (keyword_cands p kw e).
+    Proof.
+      assert (Hk : forall n s t sb eb, kw_item (CKeyword kw nm) (VC kKeyword (Some kw) n s t sb eb)).
+      { intros n s t sb eb _. exists kw. split; [constructor|]. repeat eexists. }
+      destruct e as [|x]; cbn [keyword_cands].
+      - apply kw_ret. constructor; [apply Hk|constructor].
+      - destruct (se_node x); try apply kw_nil. destruct steps as [|[rr| | | |] [|]]; try apply kw_nil.
+        destruct (_ || _); [apply kw_nil|]. destruct (bytes_prefix _ _); [|apply kw_nil].
+        apply kw_ret. constructor; [apply Hk|constructor].
+    Qed.
+
+    Lemma one_of_kw cs0 cs e : (forall c, In c cs -> In c cs0) -> vres_kw (COneOf cs0) (one_of_cands rec cs e).
+    Proof.
+      induction cs as [|c r IH]; intros Hin; cbn [one_of_cands]; [apply kw_nil|].
+      apply kw_app.
+      - eapply kw_weaken; [|apply Hrec]. intros kw H. econstructor; [apply Hin; left; reflexivity|exact H].
+      - apply IH. intros c' Hc'. apply Hin. right. exact Hc'.
+    Qed.
+
+    Lemma list_kw c k elem e : k <> kKeyword -> (forall ec kw, elem = Some ec -> has_kw ec kw -> has_kw c kw) ->
+      vres_kw c (list_cands prefill file opens empties p rec k c elem e).
+    Proof.
+      intros Hk Hsub. destruct e as [|x]; cbn [list_cands].
+      - apply one_other, ecd_item_other, Hk.
+      - destruct (se_node x); try apply kw_nil. destruct elem as [ec|]; [|apply kw_nil].
+        assert (Hr : forall e', vres_kw c (rec ec e')) by (intros e'; eapply kw_weaken; [|apply Hrec]; intros kw H; eapply Hsub; [reflexivity|exact H]).
+        destruct (inside _ _); [|apply kw_nil]. destruct elems; [apply Hr|]. destruct (elem_at _ _ _ _); apply Hr.
+    Qed.
+
+    Lemma tuple_at_in elems : forall i cs le li y c, tuple_at file empties p i elems cs le li = TFound y c -> In c cs.
+    Proof.
+      induction elems as [|x r IH]; intros i cs le li y c H; cbn [tuple_at] in H; [discriminate|].
+      destruct cs as [|c0 cr]; [discriminate|].
+      destruct (is_empty_expr empties x); [discriminate|]. destruct (Z.ltb _ _); [discriminate|].
+      destruct (at_or_end _ _); [injection H as _ <-; left; reflexivity|].
+      destruct (dot_behind _ _ _); [injection H as _ <-; left; reflexivity|]. right. eapply IH; eassumption.
+    Qed.
+
+    Lemma tuple_kw c cs e : (forall c' kw, In c' cs -> has_kw c' kw -> has_kw c kw) ->
+      vres_kw c (tuple_cands prefill file opens empties p rec c cs e).
+    Proof.
+      intros Hsub.
+      assert (Hr : forall c' e', In c' cs -> vres_kw c (rec c' e')) by (intros c' e' Hin; eapply kw_weaken; [|apply Hrec]; intros kw H; eapply Hsub; eassumption).
+      destruct e as [|x]; cbn [tuple_cands].
+      - apply one_other, ecd_item_other. unfold kTuple, kKeyword; discriminate.
+      - destruct (se_node x); try apply kw_nil. destruct cs as [|c0 cr]; [apply kw_nil|].
+        destruct (negb _); [apply kw_nil|]. destruct elems as [|e0 es]; [apply Hr; left; reflexivity|].
+        destruct (Nat.ltb _ _); [apply kw_nil|].
+        destruct (tuple_at _ _ _ _ _ _ _ _) as [y c1|le li] eqn:Et.
+        + apply Hr. eapply tuple_at_in; eassumption.
+        + destruct (Z.leb _ _); [apply kw_nil|]. destruct (Nat.eqb _ _); [apply kw_nil|].
+          destruct (trim_right_set _ _); [apply kw_nil|].
+          destruct (nth_error _ _) as [c1|] eqn:En; [|apply kw_none]. apply Hr. eapply nth_error_In; eassumption.
+    Qed.
+
+    Lemma map_items_kw c ec interp items : (forall kw, has_kw ec kw -> has_kw c kw) -> forall rcv,
+      match map_items empties p rec ec interp items rcv with IReturn r => vres_kw c r | IFall _ => True end.
+    Proof.
+      intros Hsub. induction items as [|[kr k v] r IH]; intros rcv; cbn [map_items]; [exact I|].
+      destruct (_ && _); [apply kw_nil|]. destruct (Z.ltb _ _); [exact I|].
+      destruct (contains_pos kr p).
+      - destruct (key_parens k); [|apply kw_nil]. destruct interp; [apply rec_any|apply kw_nil].
+      - destruct (at_or_end _ _); [eapply kw_weaken; [exact Hsub|apply Hrec]|apply IH].
+    Qed.
+
+    Lemma map_kw c elem interp e : (forall ec kw, elem = Some ec -> has_kw ec kw -> has_kw c kw) ->
+      vres_kw c (map_cands prefill file opens empties p rec c elem interp e).
+    Proof.
+      intros Hsub. destruct e as [|x]; cbn [map_cands].
+      - apply one_other, ecd_item_other. unfold kMap, kKeyword; discriminate.
+      - destruct (se_node x); try apply kw_nil. destruct (negb _); [apply kw_nil|]. destruct elem as [ec|]; [|apply kw_nil].
+        assert (Hs : forall kw, has_kw ec kw -> has_kw c kw) by (intros kw H; eapply Hsub; [reflexivity|exact H]).
+        assert (Hr : forall e', vres_kw c (rec ec e')) by (intros e'; eapply kw_weaken; [exact Hs|apply Hrec]).
+        cbv zeta.
+        set (ic := match ecd prefill 40 ec 2 0 with Some d => _ | None => _ end).
+        assert (Hone : vres_kw c (vret [ic])).
+        { apply one_other. subst ic. destruct (ecd prefill 40 ec 2 0); apply at_cursor_other; unfold kAttribute, kKeyword; discriminate. }
+        assert (Hfin : forall its rcv, vres_kw c match map_items empties p rec ec interp its rcv with IReturn r0 => r0 | IFall _ => vnil end -> True) by auto.
+        destruct items as [|it its].
+        + destruct (trim_space _ _); [exact Hone|]. destruct (last_is _ _); [apply Hr|].
+          match goal with |- context [map_items ?a ?b ?c0 ?d ?e0 ?f ?g] =>
+            pose proof (map_items_kw c d e0 f Hs g) as Hm; destruct (map_items a b c0 d e0 f g); [exact Hm|] end.
+          repeat first [ exact Hone | apply kw_nil | apply Hr | apply rec_any
+                       | match goal with |- vres_kw _ (match ?x with _ => _ end) => destruct x end
+                       | match goal with |- vres_kw _ (if ?b then _ else _) => destruct b end ].
+        + match goal with |- context [map_items ?a ?b ?c0 ?d ?e0 ?f ?g] =>
+            pose proof (map_items_kw c d e0 f Hs g) as Hm; destruct (map_items a b c0 d e0 f g); [exact Hm|] end.
+          repeat first [ exact Hone | apply kw_nil | apply Hr | apply rec_any
+                       | match goal with |- vres_kw _ (match ?x with _ => _ end) => destruct x end
+                       | match goal with |- vres_kw _ (if ?b then _ else _) => destruct b end ].
+    Qed.
+
+    Lemma attrs_to_cands_other prefix ats d er : Forall other_kind (attrs_to_cands prefill prefix ats d er).
+    Proof.
+      unfold attrs_to_cands. apply Forall_flat_map. apply Forall_forall. intros [name a] _.
+      destruct (negb _); [constructor|].
+      destruct (decl_get d name); [destruct (negb _); [constructor|]|];
+        destruct (ecd prefill 40 (as_cons a) 1 0); (constructor; [unfold other_kind; cbn; unfold kAttribute, kKeyword; discriminate|constructor]).
+    Qed.
+
+    Lemma alookup_in {A} n (l : list (string * A)) a : alookup n l = Some a -> In (n, a) l.
+    Proof.
+      induction l as [|[k v] r IH]; cbn [alookup]; [discriminate|].
+      destruct (String.eqb n k) eqn:E; [apply String.eqb_eq in E; subst; intros H; injection H as <-; left; reflexivity|].
+      intros H. right. apply IH. exact H.
+    Qed.
+
+    Lemma object_items_kw c ats interp items : (forall n a kw, In (n, a) ats -> has_kw (as_cons a) kw -> has_kw c kw) -> forall st,
+      match object_items prefill file empties p rec ats interp items st with OReturn r => vres_kw c r | OFall _ => True end.
+    Proof.
+      intros Hsub. induction items as [|[kr k v] r IH]; intros st; cbn [object_items]; [exact I|].
+      assert (Hlk : forall n e', match alookup n ats with Some s => vres_kw c (rec (as_cons s) e') | None => True end).
+      { intros n e'. destruct (alookup n ats) as [s|] eqn:El; [|exact I].
+        eapply kw_weaken; [|apply Hrec]. intros kw H. eapply Hsub; [eapply alookup_in; exact El|exact H]. }
+      destruct (_ && _); [apply kw_nil|].
+      destruct (os_next st); [apply IH|]. destruct (Z.ltb _ _); [apply IH|].
+      destruct (contains_pos kr p).
+      - destruct k as [nm|pe|]; cbn [key_parens].
+        + apply kw_ret, kw_other, attrs_to_cands_other.
+        + destruct interp; [apply rec_any|apply kw_nil].
+        + apply kw_nil.
+      - destruct (at_or_end _ _); [|apply IH].
+        destruct k as [nm|pe|].
+        + specialize (Hlk nm (norm empties v)). destruct (alookup nm ats); [exact Hlk|apply kw_nil].
+        + specialize (Hlk ""%string (norm empties v)). destruct (alookup "" ats); [exact Hlk|apply kw_nil].
+        + specialize (Hlk ""%string (norm empties v)). destruct (alookup "" ats); [exact Hlk|apply kw_nil].
+    Qed.
+
+    Lemma object_kw c ats interp e : (forall n a kw, In (n, a) ats -> has_kw (as_cons a) kw -> has_kw c kw) ->
+      vres_kw c (object_cands prefill file opens empties p rec c ats interp e).
+    Proof.
+      intros Hsub. destruct e as [|x]; cbn [object_cands].
+      - apply one_other, ecd_item_other. unfold kObject, kKeyword; discriminate.
+      - destruct (se_node x); try apply kw_nil. destruct (negb _); [apply kw_nil|]. destruct ats as [|a0 ats'] eqn:Ea; [apply kw_nil|]. rewrite <- Ea in *.
+        match goal with |- context [object_items ?a ?b ?c0 ?d ?e0 ?f ?g ?h ?i] =>
+          pose proof (object_items_kw c f g h Hsub i) as Hm; destruct (object_items a b c0 d e0 f g h i) as [r0|st]; [exact Hm|] end.
+        destruct (trim_right_set _ _) as [|b0 bs]; [apply kw_nil|].
+        match goal with |- vres_kw _ (match ?single with Some a1 => _ | None => _ end) => destruct single as [a1|] end.
+        + repeat first [ apply kw_nil | match goal with |- vres_kw _ (if ?b then _ else _) => destruct b end ].
+          apply kw_ret, kw_other, attrs_to_cands_other.
+        + destruct (_ && _); [apply rec_any|]. destruct (last_is _ _).
+          * destruct (alookup _ ats) as [s|] eqn:El; [|apply kw_nil].
+            eapply kw_weaken; [|apply Hrec]. intros kw H. eapply Hsub; [eapply alookup_in; exact El|exact H].
+          * apply kw_ret, kw_other, attrs_to_cands_other.
+    Qed.
+
+    Lemma ref_items_kw c e : vres_kw c (ref_items p e).
+    Proof.
+      destruct e as [|x]; cbn [ref_items]; [apply one_other; unfold other_kind; cbn; unfold kReference, kKeyword; discriminate|].
+      destruct (se_node x); try apply kw_nil; try apply kw_skip.
+      apply one_other; unfold other_kind; cbn; unfold kReference, kKeyword; discriminate.
+    Qed.
+
+    Lemma fn_items_kw c e : vres_kw c (fn_items p e).
+    Proof.
+      destruct e as [|x]; cbn [fn_items]; [apply one_other; unfold other_kind; cbn; unfold kFunction, kKeyword; discriminate|].
+      destruct (se_node x); try apply kw_nil; try apply kw_skip.
+      destruct steps as [|[rr| | | |] [|]]; try apply kw_nil.
+      destruct (_ || _); [apply kw_nil|]. apply one_other; unfold other_kind; cbn; unfold kFunction, kKeyword; discriminate.
+    Qed.
+
+    Lemma index_kw c e : vres_kw c (index_cands empties rec e).
+    Proof.
+      destruct e as [|x]; cbn [index_cands]; [apply kw_nil|]. destruct (se_node x); try apply kw_nil; [|apply rec_any].
+      destruct (rev steps) as [|[| | | |] [|]]; try apply kw_nil. apply rec_any.
+    Qed.
+
+    Lemma leaf_kw c t skip e : vres_kw c (leaf_cands empties vals p rec t skip e).
+    Proof.
+      unfold leaf_cands. apply kw_app; [apply ref_items_kw|]. apply kw_app; [apply fn_items_kw|].
+      apply kw_app; [apply literal_type_kw|apply index_kw].
+    Qed.
+
+    Lemma call_kw c x : vres_kw c (call_cands file empties funcs parens p rec x).
+    Proof.
+      unfold call_cands. destruct (se_node x); try apply kw_nil.
+      destruct (contains_pos _ _); [apply one_other; unfold other_kind; cbn; unfold kFunction, kKeyword; discriminate|].
+      repeat first [ apply kw_nil | apply rec_any
+                   | match goal with |- vres_kw _ (match ?y with _ => _ end) => destruct y end
+                   | match goal with |- vres_kw _ (if ?b then _ else _) => destruct b end
+                   | match goal with |- vres_kw _ (let '(_, _) := ?y in _) => destruct y end ].
+    Qed.
+
+    Lemma non_complex_kw c t skip e : vres_kw c (non_complex_cands file empties vals funcs parens p rec t skip e).
+    Proof.
+      destruct e as [|x]; cbn [non_complex_cands]; [apply leaf_kw|].
+      pose proof (leaf_kw c t skip (CExpr x)) as Hleaf.
+      destruct (se_node x); try exact Hleaf; try apply kw_skip; try apply call_kw;
+        repeat first [ exact Hleaf | apply kw_nil | apply kw_skip | apply rec_any
+                     | apply kw_app
+                     | match goal with |- vres_kw _ (match ?y with _ => _ end) => destruct y end
+                     | match goal with |- vres_kw _ (if ?b then _ else _) => destruct b end ].
+    Qed.
+
+    Lemma any_kw c t skip e : vres_kw c (any_cands file empties vals funcs parens p rec t skip e).
+    Proof.
+      unfold any_cands. destruct skip; [apply non_complex_kw|]. destruct e as [|x]; [apply non_complex_kw|].
+      pose proof (non_complex_kw c t false (CExpr x)) as Hnc.
+      destruct t; try exact Hnc; destruct (se_node x); try exact Hnc;
+        (eapply kw_weaken; [|apply Hrec]); intros kw H; exfalso; inversion H; subst;
+        try (eapply no_kw_any; eassumption).
+      - match goal with Hin : In _ (map _ _) |- _ => apply in_map_iff in Hin as (t0 & <- & _) end. eapply no_kw_lit; eassumption.
+      - match goal with Hin : In _ (map _ _) |- _ => apply in_map_iff in Hin as ([n0 [t0 o0]] & Ea & _); injection Ea as <- <- end.
+        match goal with Hk : has_kw (as_cons _) _ |- _ => cbn in Hk; eapply no_kw_lit; exact Hk end.
+    Qed.
+
+    Lemma step_kw c e : vres_kw c (step_cands prefill file opens empties vals funcs parens p rec c e).
+    Proof.
+      destruct c; cbn [step_cands].
+      - apply any_kw.
+      - apply literal_type_kw.
+      - apply literal_value_kw.
+      - apply keyword_kw.
+      - destruct addr_scope; [apply kw_nil|apply ref_items_kw].
+      - apply kw_skip.
+      - apply list_kw; [unfold kList, kKeyword; discriminate|]. intros ec kw -> H. constructor. exact H.
+      - apply list_kw; [unfold kSet, kKeyword; discriminate|]. intros ec kw -> H. constructor. exact H.
+      - apply tuple_kw. intros c' kw Hin H. econstructor; eassumption.
+      - apply map_kw. intros ec kw -> H. constructor. exact H.
+      - apply object_kw. intros n a kw Hin H. econstructor; eassumption.
+      - apply one_of_kw. auto.
+    Qed.
+  End StepK.
+
+  Theorem value_cands_keywords_admitted fuel : forall c e, vres_kw c (value_cands prefill file opens empties vals funcs parens p fuel c e).
+  Proof.
+    induction fuel as [|n IH]; intros c e; cbn [value_cands]; [apply kw_none|]. apply step_kw. exact IH.
+  Qed.
+End Keywords.
+
+(* a Keyword constraint at an empty value offers exactly its keyword; on a name being typed it offers it iff the
+   typed text (cursor inside or right behind the name) is a prefix of the keyword *)
+Lemma keyword_at_empty p kw : keyword_cands p kw CEmpty = vret [VC kKeyword (Some kw) (Some kw) (Some kw) (Some false) (p_byte p) (p_byte p)].
+Proof. reflexivity. Qed.
+
+Lemma keyword_on_typed_name p kw r vt root rr res :
+  (0 <= p_byte p - rs rr <= Z.of_nat (String.length root))%Z ->
+  keyword_cands p kw (CExpr (SE r vt (NTrav root [TSRoot rr] res))) =
+    if bytes_prefix (String.substring 0 (Z.to_nat (p_byte p - rs rr)) root) kw
+    then vret [VC kKeyword (Some kw) (Some kw) (Some kw) (Some false) (rs r) (re r)] else vnil.
+Proof.
+  intros (H1 & H2). cbn [keyword_cands se_node se_rng]. unfold P, pb.
+  assert (Z.ltb (p_byte p - rs rr) 0 = false) as -> by (apply Z.ltb_ge; lia).
+  assert (Z.ltb (Z.of_nat (String.length root)) (p_byte p - rs rr) = false) as -> by (apply Z.ltb_ge; lia).
+  reflexivity.
+Qed.
